@@ -83,9 +83,9 @@ def C01(ctx):
     E.c06_t3(sctx6, f)
     E.c06_r1(sctx6, f)
     R.c01_r1(ctx, f)
+    G.c04_r5(ctx, f)
     d_pipe = G.c01_r6(ctx, f)
     R.c01_r2(soft_if(ctx, d_pipe, "C01.R6"), f)
-    G.c04_r5(ctx, f)
     d_sel = G.c11_r8(ctx, f)
     R.c04_r1(soft_if(ctx, d_sel, "C11.R8"), f)
     R.c08_r1(ctx, f, rid="C01.R3")
@@ -120,7 +120,7 @@ def C02(ctx):
     E.c02_r2(soft_if(ctx, d_il, "C02.R4"), f)
     x("c02_r3", soft_if(ctx, d_il, "C02.R4"), f)
     # the interleaved sequence reaches the placement unaltered: every codeword as computed, zero remainder bits, 8*codewords+remainder
-    G.c01_r6(ctx, f)
+    G.c01_r6(ctx, f, report_fields=False)
     return dict(
         level="other",
         explanation="Exhaustive table obligations (every cell of the block-layout, data-codeword, total-codeword, remainder-bit and generator tables against values derived from ISO Table 9), buffer sizes from signatures, and the complete output of polynomials::structure for all 160 cells by partial evaluation with symbolic data codewords: data blocks interleaved in ISO order, then each block's own EC codewords (remainder cells of its own division) interleaved, zero after. All-zero syndromes: each block's EC codewords are the remainder of block(x).x^ec by the generator for EVERY block content (C07.R4: the division evaluated with the block bytes as free symbols over GF(2^8)-linear forms, all 13 degrees and every block length in use; field tables and generators exact by C07.T1/T2). Not decided: the corruption corollary (a textbook consequence of zero syndromes and the generator degree, not mechanised).",
